@@ -201,7 +201,7 @@ def judge_supported_attachments(r, m, source):
     received = {att.filename: att.data.getvalue() for att in r.attachments}
     for a in m.get("attachments", []):
         from sharepoint2text.parsing.mime_types import MIME_TYPE_MAPPING as _MM
-        if a.get("fmt") or is_supported_file(a["name"]) or a["type"] in _MM:
+        if a["type"] in _MM:          # "supported" is decided by the declared type; the extractor is then chosen by the file name first, by the type otherwise
             try:
                 # the documented rule: by file name, else by the declared MIME type; the attached file is the bytes as they arrived
                 # (exactness of those bytes is the attachments clause; text parts travel with the transport's line endings)
@@ -315,7 +315,11 @@ def _att_st():
     legacy = st.tuples(st.sampled_from([("latin.csv", "text/csv", "iso-8859-1", "Größe;Preis\nTür;5\n"), ("umlaute.txt", "text/plain", "cp1252", "Straße – „Zitat“ 5 €\n"),
                                         ("latin2.txt", "text/plain", "iso-8859-2", "Łódź żółć\n")]), st.integers(0, 99)).map(
         lambda t: {"name": f"{t[1]}-{t[0][0]}", "hex": t[0][3].encode(t[0][2]).hex(), "type": t[0][1], "charset": t[0][2]})
-    return st.one_of(doc, doc, blob, legacy)
+    # file name and declared type disagree: the documented rule routes by the name first (a .csv sent as application/vnd.ms-excel is still a CSV file)
+    mism = st.tuples(st.sampled_from([("notes.html", "text/plain", "<html><body><p>note ZB09001 text</p></body></html>"), ("table.csv", "application/vnd.ms-excel", "id,city\n1,Oslo ZB09002\n"),
+                                      ("readme.md", "application/octet-stream", "# title ZB09003\n\ntext\n"), ("data.json", "text/plain", '{"k": "ZB09004"}'), ("page.txt", "text/html", "plain ZB09005 text\n")]),
+                     st.integers(0, 99)).map(lambda t: {"name": f"{t[1]}-{t[0][0]}", "hex": t[0][2].encode().hex(), "type": t[0][1]})
+    return st.one_of(doc, doc, blob, legacy, mism)
 
 
 @st.composite
@@ -394,7 +398,7 @@ def validate(case):
         for a in m.get("attachments", []):
             assert a.get("charset") in (None, "iso-8859-1", "cp1252", "iso-8859-2") and (a.get("charset") is None or (a.get("hex") is not None and a["type"].startswith("text/")))
             assert a.get("charset") is None or a["name"].rsplit(".", 1)[-1] in ("csv", "txt")
-            assert a["name"] and a["type"] in ("application/pdf", "application/vnd.openxmlformats-officedocument.wordprocessingml.document", "application/vnd.openxmlformats-officedocument.spreadsheetml.sheet",
+            assert a["name"] and a["type"] in ("application/vnd.ms-excel", "application/pdf", "application/vnd.openxmlformats-officedocument.wordprocessingml.document", "application/vnd.openxmlformats-officedocument.spreadsheetml.sheet",
                                                 "text/plain", "text/csv", "text/html", "application/octet-stream") and (a.get("hex") is not None or a["fmt"] in ("pdf", "docx", "xlsx", "txt", "csv", "html"))
             if a.get("fmt"):
                 assert a["name"].endswith("." + a["fmt"]) and len(a["name"]) > len(a["fmt"]) + 1
